@@ -196,6 +196,7 @@ class World:
         ext["__super__"] = self.call_super
         ext["__getattr__"] = self.get_property
         ext["__getitem__"] = self.get_item
+        ext["__contains__"] = self.contains
         ext["__bool__"] = self.truth
         ext["__module_env__"] = self.module_env
         ext["__class_state__"] = self.class_state
@@ -249,7 +250,26 @@ class World:
     def get_item(self, v, key):
         if isinstance(v, Instance) and "__getitem__" in self.methods_of(v.cls):
             return self.call_method(v, "__getitem__", [key], {})
+        if isinstance(v, Instance):
+            f = self.foreign_method(v.cls, "__getitem__")
+            if f is not None:
+                return f(v, [key], {})
         raise NotHandled()
+
+    def contains(self, v, key):
+        if isinstance(v, Instance) and "__contains__" in self.methods_of(v.cls):
+            return self.truth_of(self.call_method(v, "__contains__", [key], {}))
+        if isinstance(v, Instance):
+            f = self.foreign_method(v.cls, "__contains__")
+            if f is not None:
+                return bool(f(v, [key], {}))
+        raise NotHandled()
+
+    @staticmethod
+    def truth_of(v):
+        if isinstance(v, bool):
+            return v
+        raise Undecided("__contains__ did not return a bool")
 
     def truth(self, v):
         if not isinstance(v, Instance):
@@ -264,23 +284,48 @@ class World:
             return _tp(self.call_method(v, "__len__", [], {})).const_value() != 0
         return True
 
+    def mro_names(self, cls):
+        """Linearisation of a class over registered and foreign bases (C3 for the shapes the package uses: depth first, left
+        to right, a base shared by several parents after the last of them)."""
+        def lin(c_name):
+            c = self.classes.get(c_name)
+            if c is None:
+                return [c_name]
+            seqs = [lin((b or "").split(".")[-1]) for b in c.base_names()] + [[(b or "").split(".")[-1] for b in c.base_names()]]
+            out = [c_name]
+            seqs = [list(x) for x in seqs if x]
+            while seqs:
+                for sq in seqs:
+                    head = sq[0]
+                    if not any(head in other[1:] for other in seqs):
+                        break
+                else:
+                    raise Undecided(f"inconsistent class hierarchy at {c_name}")
+                out.append(head)
+                seqs = [[x for x in sq if x != head] for sq in seqs]
+                seqs = [sq for sq in seqs if sq]
+            return out
+        return lin(cls.name)
+
     def call_super(self, cls_name, mname, inst, args, kwargs):
         cls = self.classes.get(cls_name)
         if cls is None or not isinstance(inst, Instance):
             raise Undecided(f"super().{mname} outside the object model")
-        for bname in cls.base_names():
-            b = self.classes.get((bname or "").split(".")[-1])
-            if b is not None and mname in self.methods_of(b):
-                m = self.methods_of(b)[mname]
+        # super() continues along the linearisation of the INSTANCE's class after the class the call is written in
+        order = self.mro_names(inst.cls)
+        after = order[order.index(cls_name) + 1:] if cls_name in order else [(b or "").split(".")[-1] for b in cls.base_names()]
+        for bname in after:
+            b = self.classes.get(bname)
+            if b is not None and mname in b.methods:
+                m = b.methods[mname]
                 env = dict(self.module_env)
                 env.update(self._bind(m.node, list(args), kwargs or {}, skip_self=True))
                 env["self"] = inst
                 it = Interp(env, inst.attrs, self.region, methods={n: mm.node for n, mm in self.methods_of(b).items()}, cls_name=b.name, externals=self.externals())
                 return it.run(A.strip_docstring(m.node.body))
-        f = self.foreign_method(cls, mname)
-        if f is not None:
-            return f(inst, list(args), kwargs or {})
-        if mname == "__init__" and all((b or "").split(".")[-1] not in self.classes for b in cls.base_names()):
+            if b is None and bname in getattr(self, "foreign", {}) and mname in self.foreign[bname]:
+                return self.foreign[bname][mname](inst, list(args), kwargs or {})
+        if mname == "__init__" and all(bn not in self.classes or bn == cls_name for bn in after if bn not in getattr(self, "foreign", {})):
             return None  # object.__init__ (or an unmodelled base that only stores its own state)
         raise Undecided(f"super().{mname}: no registered base class defines it")
 
@@ -349,3 +394,48 @@ class World:
         env.update(self._bind(f.node, list(args), kwargs or {}, skip_self=False))
         it = Interp(env, {}, self.region, externals=self.externals())
         return it.run(A.strip_docstring(f.node.body))
+
+
+def dict_base():
+    """`dict` as a foreign base class: the mapping an instance of a dict subclass IS lives in attrs['__payload__']."""
+    from .alg import _PyRaise
+    P = "__payload__"
+
+    def pl(inst):
+        return inst.attrs.setdefault(P, {})
+
+    def init(inst, a, k):
+        if a:
+            src = a[0]
+            if isinstance(src, Instance):
+                src = pl(src)
+            if isinstance(src, dict):
+                pl(inst).update(src)
+            elif isinstance(src, (list, tuple)):
+                pl(inst).update({kk: vv for kk, vv in src})
+            else:
+                raise Undecided("dict(<non-mapping>)")
+        pl(inst).update(k)
+        return None
+
+    def getitem(inst, a, k):
+        if a[0] not in pl(inst):
+            raise _PyRaise("KeyError")
+        return pl(inst)[a[0]]
+
+    def pop(inst, a, k):
+        if a[0] in pl(inst):
+            return pl(inst).pop(a[0])
+        if len(a) > 1:
+            return a[1]
+        raise _PyRaise("KeyError")
+
+    return {
+        "__init__": init, "__getitem__": getitem, "__contains__": lambda inst, a, k: a[0] in pl(inst),
+        "get": lambda inst, a, k: pl(inst).get(a[0], a[1] if len(a) > 1 else None),
+        "keys": lambda inst, a, k: list(pl(inst).keys()), "values": lambda inst, a, k: list(pl(inst).values()),
+        "items": lambda inst, a, k: [tuple(kv) for kv in pl(inst).items()],
+        "setdefault": lambda inst, a, k: pl(inst).setdefault(a[0], a[1] if len(a) > 1 else None),
+        "pop": pop, "update": lambda inst, a, k: init(inst, a, k), "__len__": lambda inst, a, k: Poly.const(len(pl(inst))),
+        "__bool__": lambda inst, a, k: bool(pl(inst)),
+    }
